@@ -1,8 +1,9 @@
 SPECIFICATION TraceSpec
 CONSTANTS Mode = "none"
           Alpha = "quick"
-          MaxLen = 0
+          Lens = {}
           SmallAlpha = "core"
-          CoreLen = 0
+          SmallLens = {}
+          Lattice = FALSE
           AsWritten = FALSE
 CHECK_DEADLOCK FALSE
